@@ -1253,6 +1253,8 @@ class Emitter:
             o.append('  %s = __builtin_bswap%s(%s);' % (d, m.group(1), v(0))); return
         if nm.startswith('llvm.expect'):
             o.append('  %s = %s;' % (d, v(0))); return
+        if nm.startswith('llvm.is.constant'):
+            o.append('  %s = 0;   /* llvm.is.constant: "not known to be constant" is always a valid answer */' % d); return
         if nm == 'llvm.trap':
             o.append('  VERIF_UB(0, "UB: llvm.trap"); __CPROVER_assume(0);'); return
         if nm.startswith('llvm.stacksave'):
